@@ -204,6 +204,17 @@ def run(chk: Check):
         # every third scenario has a convergence precision and zero-rounding losses: calls that stop early, then the calibration goes on
         # (further calls, restores) - the scheduling rule counts batches over the whole life, early stops included
         scn = ch.gen_scn(rng, sched="rr", restore=True, conv=(i % 3 == 2), max_batches=rng.randint(3, 20))
+        if i % 5 == 4:
+            # a calibrate() call that dies in the middle (the model raises in its second or a later batch), a restore from the saving folder, further batches:
+            # the checkpoint of the last completed batch carries the scheduler's position, so batch k is still produced by sampler k mod n
+            scn.folder, scn.conv = True, None
+            n1 = rng.randint(3, 5)
+            sizes = [bs for (_, bs, _, _) in scn.lineup]
+            fb = rng.randint(1, n1 - 1)
+            k = scn.ensemble * sum(sizes[b % len(sizes)] for b in range(fb)) + rng.randrange(scn.ensemble * sizes[fb % len(sizes)])
+            scn.faults = [("M", k)]
+            scn.ops = [("C", n1), ("R",), ("C", rng.randint(2, 4))]
+            chk.count("rr:call_dies_mid_way_then_restore_and_continue")
         with warnings.catch_warnings():
             warnings.simplefilter("ignore")
             lines, info = ch.run_real(scn)
@@ -216,6 +227,11 @@ def run(chk: Check):
         chk.count(f"rr:n={len(scn.lineup)}"); chk.count("rr:with_restore" if any(o[0] == "R" for o in scn.ops) else "rr:live_only")
         for e in oracle_rr(scn, info)[:3]:
             chk.fail("round-robin: " + e, {"case": scn_json(scn)})
+        if i % 5 == 4:
+            # (the fault plan counts invocations per process in the harness and per calibrator object - restored with it - in the model: after the restore the
+            # model would fail again at the same count. This stream is judged by the model-independent oracle above.)
+            chk.count("rr:model_comparison_skipped_for_die_and_restore")
+            continue
         ok, k, a, b = ch.compare(scn, lines, info)
         if not ok:
             chk.disagree("Calibrator+RoundRobinScheduler != BlackIt.Calibrator (scheduling)",
